@@ -114,6 +114,19 @@ Additions for retrospective.py / data.py (reveal_plates, mask_screen, unmask_scr
                       in cfg["vars"] at T is `match x with Some v => let x := v in A | None => B end`: inside A, x has type T.
                       Variables both branches leave bound must end them at the same type (refused otherwise), which is their
                       type afterwards - so an Optional argument that every path replaces by a value is a T after the `if`.
+Additions for the randomised steps (scoring/rand.py, the hold-out splits, the DBAL sub-sampling; C18):
+  cfg["monad"]        with type="rprog" (Model/RandProg.v) a function denotes a resumption program: every `!` template is bound
+                      with the monad's bind, so a primitive whose template contains a request (`rng.random()` -> `!rp_random`)
+                      puts that request into the program at the place where Python evaluates the call.  A raise needs a
+                      template tag (`rp_raise 5`), not an integer.  Any call that is not a declared primitive - a module-level
+                      numpy.random function, default_rng(), passing `rng` on - is refused like every other undeclared call.
+  cfg["effectful_dictcomp"]  True: `{k(x): v(x) for x in L}` whose key / value may raise or draw is the monad's fold over L of
+                      `d[k] = v` (dict_set), the key evaluated before the value (CPython >= 3.8), element by element from the left
+  cfg["int_truthiness"]      True: the truth value of a plain int (declared Z) is `negb (x =? 0)` (`if not n:`)
+  cfg["assign_effects"]      a template starting with `!` denotes a `result state`: the assignment may raise (an IndexError of
+                      `a[idx] = True`)
+  cfg["typed_loop_vars"]     True: a `for` loop's variable is bound with its declared type (`let x : T := it in`), for bodies
+                      from which Coq cannot infer the element type
 """
 import ast
 
@@ -348,6 +361,14 @@ class Tr:
             kk, kt = self.expr(e.key, env2, inner)
             kk = self.need(kk, kt, ("Z",), inner)
             vv, vt = self.expr(e.value, env2, inner)
+            if inner and self.cfg.get("effectful_dictcomp"):
+                # a key / value that may raise (or draw): element by element from the left, the key before the value,
+                # through the monad's fold; the first exception aborts
+                d, n = self.new("d"), self.new("dc")
+                body = "".join("%s %s <- %s; " % (self.M["bind"], a, t) for a, t in inner) \
+                    + "%s (dict_set %s %s %s)" % (self.M["ok"], d, kk, vv)
+                hoist.append((n, "%s (fun %s %s => %s) %s []" % (self.M["fold"], d, g.target.id, body, l)))
+                return n, ("dictof", vt)
             if inner:
                 raise Unsupported("dict comprehension key / value that may raise: " + ast.unparse(e))
             d = self.new("d")
@@ -502,6 +523,8 @@ class Tr:
             # an optional OBJECT (opaque type): truthy iff not None.  Optional ints / bools / containers are refused:
             # 0, False and empty containers are falsy too, `is_some` would be wrong for them
             return "(is_some %s)" % v
+        if t == ("Z",) and self.cfg.get("int_truthiness"):
+            return "(negb (%s =? 0))" % v      # a plain int is true iff it is not 0
         raise Unsupported("truth value of a %s: %s" % (t, ast.unparse(e)))
 
     def compare(self, le, op, re, env, hoist):
@@ -726,6 +749,9 @@ class Tr:
                         raise Unsupported("assignment effect on an unbound state variable: " + var)
                     args = {kk[2:]: self.expr(v, env, hoist)[0] for kk, v in binds.items()}
                     args["state"] = var
+                    if tmpl.startswith("!"):     # an assignment effect that may raise: the template denotes a `result state`
+                        return self.bind_hoist(hoist, "%s%s %s <- %s;\n" % (ind, self.M["bind"], var, tmpl[1:].format(**args)), ind) \
+                            + self.block(rest, env, k, ind)
                     return self.bind_hoist(hoist, "%slet %s := %s in\n" % (ind, var, tmpl.format(**args)), ind) + self.block(rest, env, k, ind)
             if len(st.targets) != 1:
                 raise Unsupported("multiple assignment: " + ast.unparse(st))
@@ -1163,6 +1189,9 @@ class Tr:
         for n, t, tv in zip(tnames, elt, tvars):
             if n != "_":
                 env_body[n] = t
+                if self.cfg.get("typed_loop_vars"):     # the loop variable with its declared type (Coq cannot always infer it)
+                    pre += "%s    let %s : %s := %s in\n" % (ind, n, coq_type(t), tv)
+                    continue
                 pre += "%s    let %s := %s in\n" % (ind, n, tv)
 
         brk = self.has_jump(st.body, (ast.Break,))     # a `break` of THIS loop: the body answers (go on?, state)
